@@ -240,6 +240,7 @@ package dawn
 //@   nopanic
 //@   ensures  uptodate-only-if-equal: result.0 ==> (result.3 == nil && steq(f.oldEnv, f.newEnv))
 //@   ensures  reason-or-error: (!result.0 && result.3 == nil) ==> result.1 != ""
+//@   callsite Join: assert joins-all-reasons-but-the-last: len($0) == len(reasons) - 1 && arr($0) == arr(reasons) && (forall j: int :: 0 <= j && j < len($0) ==> $0[j] == reasons[j])
 //@   loop over functionEnvKeys: step one-reason-per-differing-key: when true ensures len(reasons) == old(len(reasons)) + ite(last_has, 1, 0) && (last_has ==> reasons[old(len(reasons))] == string(k))
 //@   ensures  equal-means-uptodate: (result.3 == nil && steq(f.oldEnv, f.newEnv) && old(f.oldEnv) != ifaceas("starlark.NoneType", 0)) ==> result.0
 //@   modifies heap, dkeys, dvals, it_seen, last_has
